@@ -26,7 +26,7 @@ def main():
         a = np.ascontiguousarray(a)
         hm.update(str(a.dtype).encode() + str(a.shape).encode() + a.tobytes())
     opts = build.make_options(spec["options"], dev, output_file=out_name)
-    solver = build.make_solver(dev, opts, applied_vector_potential=build.make_vector_potential(spec["field"], dev, opts.field_units),
+    solver = build.make_solver(dev, opts, applied_vector_potential=build.make_vector_potential(spec["field"], dev, opts.field_units, opts.solve_time),
                                terminal_currents=build.make_currents(spec["currents"], opts.solve_time),
                                disorder_epsilon=build.make_epsilon(spec.get("epsilon")))
     try:
